@@ -25,6 +25,12 @@ def run(ctx):
     from vpcheck import ws_facts
     prog = mirlib.load_program([ws_facts('ws')])
     thrift_pairs.compact_typestate(rep, 'R02.t', prog, mirlib.CallGraph(prog))
+    # decode and decode_async of generated types call the in-memory and the async reader: the two agree method by method
+    cg0 = mirlib.CallGraph(prog)
+    for fname in ('binary', 'binary_le', 'compact'):
+        fam = thrift_pairs.Fam(prog, cg0, fname)
+        if thrift_pairs.anchors(rep, 'R02.s', fam):
+            thrift_pairs.sync_async(rep, 'R02.s', fam)
     rep.floor('G02.a', 600)
     rep.floor('G02.e', 20)
     return rep
